@@ -313,10 +313,10 @@ def check_dsu_tlc(case, R):
     R.state("tlc", n)
     g = tlc.run("DSU", {"N": n}, ["TypeOK", "Inv", "RankBound"])
     if not g["ok"]:
-        raise RuntimeError("harness: TLC reports an error in the MODEL tla/DSU.tla (not in the code under test):\n" + g["stdout"][-2000:])
+        raise kernel.HarnessError("TLC reports an error in the MODEL tla/DSU.tla (not in the code under test):\n" + g["stdout"][-2000:])
     states, edges = g["states"], g["edges"]
     if len(states) != g["distinct"] or len(g["init"]) != 1:
-        raise RuntimeError(f"harness: graph dump has {len(states)} states, TLC reports {g['distinct']} distinct; initial states {g['init']}")
+        raise kernel.HarnessError(f"graph dump has {len(states)} states, TLC reports {g['distinct']} distinct; initial states {g['init']}")
     out_edges = {}
     for src, act, args, dst in edges:
         out_edges.setdefault(src, []).append((act, args, dst))
@@ -330,7 +330,7 @@ def check_dsu_tlc(case, R):
                 path[v] = path[u] + ((act, args),)
                 dq.append(v)
     if len(path) != len(states):
-        raise RuntimeError("harness: some dumped states are not reachable in the dumped graph")
+        raise kernel.HarnessError("some dumped states are not reachable in the dumped graph")
 
     def apply(d, act, args):
         a = args[0] - 1
